@@ -9,7 +9,7 @@
 From Coq Require Import List NArith Bool.
 From Traph Require Import Bytes Rules Tst TstDefs Traph Spec Ops TraceDefs GenStorage GenLinksFacts GenTrieFacts.
 From Traph Require Import Props.C03 Props.C05 Props.C06c Props.C07 Props.C08 Props.C09s Props.C10s Props.C13 Props.C19 Props.C20.
-From Traph Require GenTraphL GenTraphX GenTraph GenTraphR GenTraphN GenTraphN2 GenTraphQ GenTraphG GenTraphH GenTrieM GenTraphM GenTraphP GenTraphPDefs AnchorsFacts.
+From Traph Require GenTraphL GenTraphX GenTraph GenTraphR GenTraphN GenTraphN2 GenTraphQ GenTraphG GenTraphH GenTrieM GenTraphM GenTraphP GenTraphPDefs AnchorsFacts GenTraphFacts StoreFacts2.
 Import ListNotations.
 Open Scope N_scope.
 
@@ -161,6 +161,22 @@ Section Reads.
     pose proof (C20_source_most_linked d rs h H1 H2 sg sgl w ps k maxd Hrep Hl Hf1 Hf2 Hp) as H. cbv zeta in H. fold s in H.
     destruct (most_linked ps k maxd s); [congruence|congruence|]. destruct H as (sg0 & E0 & H). rewrite E in E0. fin.
   Qed.
+  (* the two resolutions (refusal = None): for every LRU, present or not *)
+  Theorem C14_source_retrieve_webentity : forall lru sg' r, wf_lru lru ->
+    GenTraph.py_traph_retrieve_webentity sg lru = Some (sg', r) -> pm_array sg' = pm_array sg.
+  Proof.
+    intros lru sg' r Hw E.
+    exact (proj2 (proj2 (GenTraphFacts.py_traph_retrieve_webentity_spec s (StoreFacts2.run_Inv18 d rs h H2) (StoreFacts2.run_root_first d rs h)
+                           sg lru Hrep Hw) (sg', r) E)).
+  Qed.
+
+  Theorem C14_source_retrieve_prefix : forall lru sg' r, wf_lru lru ->
+    GenTraph.py_traph_retrieve_prefix sg lru = Some (sg', r) -> pm_array sg' = pm_array sg.
+  Proof.
+    intros lru sg' r Hw E.
+    exact (proj2 (proj2 (GenTraphFacts.py_traph_retrieve_prefix_spec s (StoreFacts2.run_Inv18 d rs h H2) (StoreFacts2.run_root_first d rs h)
+                           sg lru Hrep Hw) (sg', r) E)).
+  Qed.
 End Reads.
 
 Print Assumptions C14_source_page_links.
@@ -179,3 +195,5 @@ Print Assumptions C14_source_parents.
 Print Assumptions C14_source_children.
 Print Assumptions C14_source_metrics.
 Print Assumptions C14_source_most_linked.
+Print Assumptions C14_source_retrieve_webentity.
+Print Assumptions C14_source_retrieve_prefix.
